@@ -55,6 +55,7 @@ type c11EagerCtl struct {
 	wDone     chan struct{} // the witness has finished its own state operations
 	yInside   chan struct{} // the holder is inside its ProcessState callback
 	zTouched  chan struct{} // a late task has started a state operation
+	yDone     chan struct{} // the holder has left its callback
 	wOnce     sync.Once
 	yOnce     sync.Once
 	zOnce     sync.Once
@@ -65,7 +66,7 @@ type c11EagerCtl struct {
 }
 
 func c11NewEagerCtl() *c11EagerCtl {
-	return &c11EagerCtl{wDone: make(chan struct{}), yInside: make(chan struct{}), zTouched: make(chan struct{})}
+	return &c11EagerCtl{wDone: make(chan struct{}), yInside: make(chan struct{}), zTouched: make(chan struct{}), yDone: make(chan struct{})}
 }
 
 // enter/leave bracket the user code of every state operation of the eager family.
@@ -190,12 +191,21 @@ func c11EagerBody(ctx context.Context, f c11Flat, in string) (string, error) {
 			e.leave(ok)
 			return nil
 		})
+		close(e.yDone)
 		if err != nil {
 			return "", err
 		}
 		if err := regular(); err != nil {
 			return "", err
 		}
+	case f.Node.Role == "side" && played:
+		// a side task must not complete while the holder is inside: its post-handler (run on the
+		// run-loop goroutine, under the restored tasks' lock) would keep the run loop from creating
+		// the late task until the holder has left
+		if err := regular(); err != nil {
+			return "", err
+		}
+		e.wait(e.yDone)
 	default:
 		if err := regular(); err != nil {
 			return "", err
